@@ -36,6 +36,7 @@ type world struct {
 	lateWork []string      // lookups / dials / requests started while quiet after Close
 	frozen   bool          // C13: the environment answers nothing any more
 	batchSeq int
+	zkSilent bool // ZooKeeper never answers
 }
 
 func (w *world) now() time.Duration { return vrt.Now().Sub(w.epoch) }
@@ -44,8 +45,8 @@ type fakeZK struct{ w *world }
 
 func (z *fakeZK) LocateResource(r zk.ResourceName) (string, error) {
 	vrt.Yield("zk.Locate")
-	if z.w.frozen {
-		vrt.Await("zk.frozen", func() bool { return false })
+	if z.w.frozen || z.w.zkSilent {
+		vrt.Await("zk.silent", func() bool { return !z.w.frozen && !z.w.zkSilent })
 	}
 	if z.w.closedAt >= 0 && z.w.quiet {
 		z.w.lateWork = append(z.w.lateWork, "zk lookup")
